@@ -67,6 +67,9 @@ SPECS_Q = [
     ('T2', [['tb/', W2, '=', V1], ['zz=', V2]]),
     ('T2', [[['x', 5]]]),
     ('T2', [['n2/ka=', V1], [W2, '/ka=7']]),
+    ('T2', [['n1/ka=', V1], ['ta/kb=', V1]]),
+    ('T2', [[W2, '/ka=', V1], [W2, '/kb=', V1]]),
+    ('T4', [['ta/b1/kb=', V1], ['ta/tb/c1/kc=', V1]]),
     ('T4', [['ta/tb/', W2, '=', V1]]),
     ('T4', [[W2, '/', W2, '/', W2, '=1']]),
     ('T4', [['ta/b1/', W2, '/kc=', V1]]),
